@@ -51,7 +51,7 @@ func (c *Compiler) validateGroupingsWalk(m parse.Node, n parse.Node) error {
 func (c *Compiler) validateAllGroupings(m parse.Node, n parse.Node) error {
 
 	for _, g := range n.ChildrenByType(parse.NodeGrouping) {
-		group_map := make(map[string]bool)
+		group_map := make(map[parse.Node]bool)
 		if err := c.validateGrouping(m, g, group_map); err != nil {
 			return err
 		}
@@ -62,17 +62,19 @@ func (c *Compiler) validateAllGroupings(m parse.Node, n parse.Node) error {
 func (c *Compiler) validateGrouping(
 	m parse.Node,
 	g parse.Node,
-	group_map map[string]bool) error {
+	group_map map[parse.Node]bool) error {
 
-	if _, present := group_map[g.Name()]; present {
+	// The groupings on the path are told apart by their definition: two
+	// groupings of the same name in different scopes are different groupings.
+	if _, present := group_map[g]; present {
 		return fmt.Errorf("Grouping cycle detected in: grouping %s", g.Name())
 	}
 
 	// Only the groupings on the current path count: a grouping that is
 	// reached twice through different branches (a uses b and c, both of
 	// which use d) is not a cycle.
-	group_map[g.Name()] = true
-	defer delete(group_map, g.Name())
+	group_map[g] = true
+	defer delete(group_map, g)
 
 	return c.validateGroupingUses(m, g, g, group_map)
 }
@@ -85,7 +87,7 @@ func (c *Compiler) validateGroupingUses(
 	m parse.Node,
 	g parse.Node,
 	n parse.Node,
-	group_map map[string]bool) error {
+	group_map map[parse.Node]bool) error {
 
 	for _, u := range n.Children() {
 		if u.Type() == parse.NodeGrouping {
